@@ -15,7 +15,9 @@ Three independent evaluations per run:
          `fitcv` / `cvexamples` for the hyper-parameter search step; `getscores` for `_get_scores`;
          `predictscaled` for `Model.decision_function` with a positional scaler and the is_trained guard;
          second pass: `fitfull` = `Model.fit` from the DataFrame (feature list, stored names, fitted scaler, direction
-         by name), `predictfull` = prediction of the trained object on another presentation of a table)
+         by name), `predictfull` = prediction of the trained object on another presentation of a table;
+         third pass: `storerun` = a session of save_model / Model.save / foreign writes / load_model on re-used file
+         names (Model/FitStore.lean), `storespec` = its last-write-wins specification)
 """
 from __future__ import annotations
 
@@ -53,7 +55,11 @@ RULE = (
     "int seed or Generator, as-is or data-dependent scaler, direction by name incl. a non-feature) = two presentations "
     "of one table + predictions of the trained and of the re-loaded object on a third presentation; re-fits on a "
     "table of other PSMs (other size, ids, feature location) and of a saved / re-loaded model; a second fit of every "
-    "model of the hyper-parameter-search runs; float32 and integer decision values"
+    "model of the hyper-parameter-search runs; float32 and integer decision values; third pass: sessions of 5-15 "
+    "operations on 2-3 Model objects (trained / untrained / re-fitted in place, also failing half-way) and 1-3 re-used "
+    "file names in two spellings: save_model / Model.save, load_model (loaded objects adopted and re-saved), foreign "
+    "contents (weights table, text line, empty, non-pickle bytes), missing files; every load must return the state "
+    "saved last under that name, objects in hand must keep their state; non-trivial = at least two loads, one of a model"
 )
 
 PROBA_SHIFT = 2 ** 44
@@ -1839,6 +1845,261 @@ def percolator_weights_cases(chk, rng, count):
 
 
 # ----------------------------------------------------------------------------
+# third pass: sessions of save_model / Model.save / foreign writes / load_model on a few re-used file names
+# (Model/FitStore.lean: saveModel, loadModel, storeRun; theorems C12_store_*)
+# ----------------------------------------------------------------------------
+STORE_FOREIGN = {0: b"f0\tf1\tm0\n0.5\t-1.0\t0.25\n2.0\t-3.0\t1.5\n",   # a Percolator weights table: the probe reads it
+                 1: b"not a model\n",                                   # one line: KeyError, then pickle refuses
+                 2: b"",                                                # EmptyDataError: not caught
+                 3: b"\xff\xfe\x00\x01 no pickle"}                      # UnicodeDecodeError, then pickle refuses
+
+
+def _store_table(rng, nfeat):
+    n = rng.choice([6, 8, 12, 20, 30])
+    targets = [i % 3 != 2 for i in range(n)]
+    rng.shuffle(targets)
+    feats = []
+    for i in range(n):
+        good = targets[i] and rng.random() < 0.8
+        feats.append([rng.randint(-6, 6) + (14 if good and j == 0 else 0) + (5 if good and j == 1 else 0)
+                      for j in range(nfeat)])
+    ids = list(range(n))
+    rng.shuffle(ids)
+    return dict(ids=ids, feats=feats, targets=targets, pat="store")
+
+
+def gen_store_case(rng):
+    """objects: Model instances (trained on a table / untrained); ops over 2-3 file names"""
+    nobj = rng.choice([2, 2, 3])
+    tables, objs = [], []
+    for o in range(nobj):
+        nfeat = rng.choice([1, 2, 3])
+        tables.append(_store_table(rng, nfeat))
+        objs.append(dict(table=len(tables) - 1, nfeat=nfeat, kind=rng.choice(["centroid", "poswt", "warm"]),
+                         max_iter=rng.choice([1, 2, 3]), shuffle=rng.random() < 0.5, seed=rng.randrange(10 ** 6),
+                         scaler=rng.choice([0, 0, 2, 3]), trained=(o == 0 or rng.random() < 0.85)))
+    npath = rng.choice([1, 2, 2, 3])
+    ops = []
+    nheld = nobj
+    for _ in range(rng.choice([4, 6, 8, 10, 14])):
+        r = rng.random()
+        if r < 0.36 or not ops:
+            ops.append(["save", rng.randrange(nheld), rng.randrange(npath), rng.randrange(2), rng.randrange(2)])
+        elif r < 0.78:
+            adopt = rng.random() < 0.4
+            ops.append(["load", rng.randrange(npath + (1 if rng.random() < 0.08 else 0)), rng.randrange(2), adopt])
+            if adopt:
+                nheld += 1            # (only if the load succeeds; the evaluator skips ops on objects that do not exist)
+        elif r < 0.88:
+            o = rng.randrange(nheld)
+            # `hard`: a table whose signal points the other way, no override: the re-fit raises half-way and leaves
+            # the object in whatever state it reached (model.py:277-288 assign before the loop)
+            ops.append(["refit", o, rng.randrange(10 ** 6), rng.random() < 0.5, rng.random() < 0.35])
+        else:
+            ops.append(["put", rng.choice([0, 1, 1, 2, 3]), rng.randrange(npath)])
+    ops.append(["load", rng.randrange(npath), rng.randrange(2), False])
+    return dict(tables=tables, objs=objs, ops=ops, npath=npath, probe_seed=rng.randrange(10 ** 6))
+
+
+def _store_probes(seed):
+    import random
+    r = random.Random(seed)
+    probes = []
+    for nfeat in (1, 2, 3):
+        n = 5
+        tab = dict(ids=[r.randrange(50) for _ in range(n)], feats=[[r.randint(-9, 9) for _ in range(nfeat)] for _ in range(n)],
+                   targets=[i % 2 == 0 for i in range(n)], pat="probe")
+        cols = feat_names(nfeat)
+        r.shuffle(cols)
+        probes.append(dataset(build_psms(tab, list(range(n)), colnames=cols), enforce=False))
+    return probes
+
+
+def _fingerprint(model, probes):
+    out = [bool(getattr(model, "is_trained", None)), tuple(getattr(model, "features", None) or ())]
+    for ps in probes:
+        try:
+            out.append(tuple(float(x) for x in model.predict(ps)))
+        except Exception as e:  # noqa: BLE001
+            out.append("raises:" + type(e).__name__)
+    w = getattr(model.estimator, "w_", None)
+    out.append(None if w is None else tuple(w))
+    lo = getattr(model.scaler, "lo_", None)
+    out.append(None if lo is None else tuple(float(x) for x in lo))
+    return tuple(out)
+
+
+def _store_fit(model, tab, order):
+    try:
+        model.fit(dataset(build_psms(tab, order), enforce=False))
+        return "ok"
+    except Exception as e:  # noqa: BLE001
+        return classify_exc(e)
+
+
+def classify_load_exc(e):
+    import pickle
+    if isinstance(e, FileNotFoundError):
+        return "reject-missing"
+    if isinstance(e, pickle.UnpicklingError):
+        return "reject-unpickle"
+    if isinstance(e, pd.errors.EmptyDataError):
+        return "reject-other"
+    if isinstance(e, ValueError) and "Multi-dimensional indexing" in str(e):
+        return "reject-weights"
+    return "other:" + type(e).__name__ + ":" + str(e)[:60]
+
+
+def eval_store_cases(chk, cases, tmp):
+    """Every `load_model` must return the state of the model that was saved last under that file (whatever was
+    loaded from it before, however the path is spelled); objects already in hand keep their state."""
+    import random
+    import mokapot
+
+    lines, pend = [], []
+    root = Path(tmp) / "store"
+    (root / "sub").mkdir(parents=True, exist_ok=True)
+    for case in cases:
+        for f in root.glob("*.pkl"):
+            f.unlink()
+        probes = _store_probes(case["probe_seed"])
+        log = new_log()
+        states = []                    # state id -> fingerprint
+        held = []                      # python object, current state id
+        nfeat_of = []
+
+        def new_state(model):
+            states.append(_fingerprint(model, probes))
+            return len(states) - 1
+
+        for o in case["objs"]:
+            sc = "as-is" if not o["scaler"] else IntScaler(o["scaler"])
+            m = mokapot.Model(RecEstDF(kind=o["kind"], log_id=log), scaler=sc, train_fdr=0.5, max_iter=o["max_iter"],
+                              override=True, shuffle=o["shuffle"], rng=o["seed"])
+            if o["trained"]:
+                chk.count("store_first_fit", _store_fit(m, case["tables"][o["table"]],
+                                                        list(range(len(case["tables"][o["table"]]["ids"])))))
+            held.append([m, new_state(m)])
+            nfeat_of.append(o["nfeat"])
+
+        def spell(j, how):
+            return (root / "sub" / ".." / f"m{j}.pkl") if how else (root / f"m{j}.pkl")
+
+        files = {}                     # independent re-statement: file name -> ("state", id) | ("foreign", kind)
+        last_loaded = {}
+        wire, impl, want = [], [], []
+        for op in case["ops"]:
+            if op[0] == "save":
+                _, o, j, how, api = op
+                if o >= len(held):
+                    continue
+                if api:
+                    held[o][0].save(spell(j, how))
+                else:
+                    mokapot.save_model(held[o][0], spell(j, how))
+                files[j] = ("state", held[o][1])
+                wire.append([0, held[o][1], j])
+                chk.count("store_op", "save")
+            elif op[0] == "put":
+                _, kind, j = op
+                (root / f"m{j}.pkl").write_bytes(STORE_FOREIGN[kind])
+                files[j] = ("foreign", kind)
+                wire.append([1, kind, j])
+                chk.count("store_op", "put")
+            elif op[0] == "refit":
+                _, o, seed, shuffle, hard = op
+                if o >= len(held):
+                    continue
+                r = random.Random(seed)
+                tab = _store_table(r, nfeat_of[o])
+                keep_iter = held[o][0].max_iter
+                if hard and seed % 2:
+                    tab["feats"] = [[-v for v in row] for row in tab["feats"]]   # refused before anything is assigned
+                    held[o][0].train_fdr = 0.25
+                elif hard:
+                    held[o][0].max_iter = 0       # IndexError after features / scaler were re-assigned: a hybrid object
+                order = list(range(len(tab["ids"])))
+                r.shuffle(order)
+                held[o][0].shuffle = shuffle
+                chk.count("store_refit", _store_fit(held[o][0], tab, order))
+                held[o][0].max_iter = keep_iter
+                held[o][1] = new_state(held[o][0])
+            else:
+                _, j, how, adopt = op
+                wire.append([2, j])
+                exp = files.get(j)
+                want.append(exp[1] if exp and exp[0] == "state" else
+                            "reject-missing" if exp is None else
+                            {0: "reject-weights", 1: "reject-unpickle", 2: "reject-other", 3: "reject-unpickle"}[exp[1]])
+                try:
+                    got = mokapot.load_model(spell(j, how))
+                except Exception as e:  # noqa: BLE001
+                    impl.append(classify_load_exc(e))
+                    chk.count("store_op", "load:" + impl[-1].split(":")[0])
+                    continue
+                fp = _fingerprint(got, probes)
+                ids = [k for k, f in enumerate(states) if f == fp]
+                if len(ids) > 1:
+                    chk.count("store_states_indistinct")
+                w = want[-1]
+                impl.append(w if w in ids else (ids[0] if ids else "unknown-state"))
+                if any(got is h[0] for h in held):
+                    impl[-1] = "shared-object"
+                chk.count("store_op", "load:ok" + (":after-overwrite-of-a-loaded-file"
+                                                   if j in last_loaded and last_loaded[j] != files.get(j) else ""))
+                last_loaded[j] = files.get(j)
+                if adopt and isinstance(impl[-1], int):
+                    held.append([got, impl[-1]])
+                    nfeat_of.append(max(1, len(got.features or ["rowid", "f0"]) - 1))
+        # objects in hand keep their state (a load that hands out a shared object, or a save that changes its model, shows here)
+        drift = [k for k, (m, sid) in enumerate(held) if _fingerprint(m, probes) != states[sid]]
+        RECORDS.pop(log, None)
+        nload = len(want)
+        key = (json.dumps(case["ops"]), case["probe_seed"]) if nload >= 2 and any(isinstance(w, int) for w in want) else None
+        chk.case(None, key, sample=dict(store_ops=case["ops"][:6]))
+        chk.count("store_loads", min(nload, 6))
+        chk.count("store_paths", case["npath"])
+        bad = [i for i, (a, b) in enumerate(zip(impl, want)) if a != b and isinstance(b, int)]
+        if bad:
+            i = bad[0]
+            chk.spec_violation("store-last-saved", dict(
+                clause="load_model does not return the model that was saved last under that file name (a saved and "
+                       "re-loaded model predicts identically)", store_case=case, load_index=i, impl=impl, expected=want))
+        elif drift:
+            chk.spec_violation("store-alias", dict(
+                clause="a model object in hand changed its predictions although only other objects / files were "
+                       "operated on (load_model must hand out a fresh object, save must not change the model)",
+                store_case=case, objects=drift))
+        lines.append(req("storerun", wire))
+        lines.append(req("storespec", wire))
+        pend.append((case, impl, want))
+    out = common.driver_batch(lines)
+    for k, (case, impl, want) in enumerate(pend):
+        mod = [int(t) if t.isdigit() else t for t in dec(out[2 * k])]
+        spc = [int(t) if t.isdigit() else t for t in dec(out[2 * k + 1])]
+        if mod != spc:
+            chk.corr_break("storespec", dict(store_case=case, model=mod, spec=spc))
+        if spc != want:
+            chk.corr_break("storespec-py", dict(store_case=case, spec=spc, python=want))
+        # a weights table that loads (another pandas) promises nothing: tallied, not compared
+        imp = list(impl)
+        for i, (a, b) in enumerate(zip(imp, mod)):
+            if b == "reject-weights" and a != b:
+                chk.reject("load-percolator-weights:loads")
+                imp[i] = b
+        if imp != mod and all(a == b for a, b in zip(impl, want) if isinstance(b, int)):
+            chk.corr_break("storerun", dict(store_case=case, impl=impl, model=mod))
+        for a in impl:
+            if isinstance(a, str) and a.startswith("reject-"):
+                chk.reject("load-model:" + a)
+
+
+def store_cases(chk, rng, count):
+    with tempfile.TemporaryDirectory() as tmp:
+        eval_store_cases(chk, [gen_store_case(rng) for _ in range(count)], tmp)
+
+
+# ----------------------------------------------------------------------------
 # exhaustive small scope
 # ----------------------------------------------------------------------------
 class _CvSpy(BaseEstimator):
@@ -2152,6 +2413,13 @@ def minimise(chk):
     if not chk.spec_violations:
         return
     sig, info = chk.spec_violations[0]
+    if "store_case" in info:
+        common.build_and_audit("C12")
+        with tempfile.TemporaryDirectory() as tmp:
+            eval_store_cases(chk, [info["store_case"]], tmp)
+        for sig, i in chk.spec_violations:
+            print("REPRODUCED", sig, json.dumps(i, default=str)[:1500])
+        return 1 if chk.spec_violations else 0
     if "case" not in info or "tab" not in info.get("case", {}):
         return
     c0 = info["case"]
@@ -2202,6 +2470,8 @@ def search(chk):
     if not chk.spec_violations:
         full_cases(chk, rng, 400)
     if not chk.spec_violations:
+        store_cases(chk, rng, 400)
+    if not chk.spec_violations:
         exhaustive(chk, 4, (1, 2, 3))
     minimise(chk)
 
@@ -2223,6 +2493,7 @@ def main(chk, args):
     score_api_cases(chk, rng, 33 if quick else 330)
     percolator_weights_cases(chk, rng, 2 if quick else 10)
     full_cases(chk, rng, 60 if quick else 600)
+    store_cases(chk, rng, 60 if quick else 900)
     if quick:
         exhaustive(chk, 3, (1, 2))
     else:
@@ -2237,8 +2508,11 @@ def main(chk, args):
         "(RidgeClassifier/LDA closed form, evidence key sklearn_max_rel_deviation_across_orders)",
         "rng.permutation(arange n) returns a permutation of 0..n-1 (the theorems quantify over all of them); the "
         "harness reads the permutation actually drawn off the first scoring call",
-        "pickle round trip (Model.save / load_model) is not modelled: checked differentially only (bit-identical "
-        "predictions, same file from save_model and Model.save)",
+        "third pass: Model.save / save_model / load_model are modelled over a file store (saveModel, loadModel, storeRun: "
+        "wb+ overwrite, csv probe, except-list dispatch, pickle.load); pickle itself is a parameter of the C12_store_* "
+        "theorems with two hypotheses - load(dump m) = m, and the csv probe cannot read a dump (KeyError / "
+        "UnicodeDecodeError) - which are only checked differentially (bit-identical predictions, same file from "
+        "save_model and Model.save, sessions of store_cases); two spellings of one path are the same file by the OS",
         "scaler='as-is' in the exact runs; StandardScaler only in the sklearn runs (scaling is a per-column affine "
         "map fitted before shuffling and is not part of this property)",
         "hyper-parameter search (_find_hyperparameters with a BaseSearchCV estimator, PercolatorModel) is modelled as a "
@@ -2283,6 +2557,13 @@ def replay(chk, path):
     if "full_case" in info:
         common.build_and_audit("C12")
         eval_full_cases(chk, [info["full_case"]])
+        for sig, i in chk.spec_violations:
+            print("REPRODUCED", sig, json.dumps(i, default=str)[:1500])
+        return 1 if chk.spec_violations else 0
+    if "store_case" in info:
+        common.build_and_audit("C12")
+        with tempfile.TemporaryDirectory() as tmp:
+            eval_store_cases(chk, [info["store_case"]], tmp)
         for sig, i in chk.spec_violations:
             print("REPRODUCED", sig, json.dumps(i, default=str)[:1500])
         return 1 if chk.spec_violations else 0
